@@ -1269,11 +1269,10 @@ class Corr:
 
     # The numpy functions:
     def sqrt(self):
-        return self ** 0.5
+        return self._apply_func_to_corr(np.sqrt)
 
     def log(self):
-        newcontent = [None if _check_for_none(self, item) else np.log(item) for item in self.content]
-        return Corr(newcontent, prange=self.prange)
+        return self._apply_func_to_corr(np.log)
 
     def exp(self):
         newcontent = [None if _check_for_none(self, item) else np.exp(item) for item in self.content]
